@@ -72,6 +72,11 @@ def harnesses(tier, seed):
         jobs.append(dict(fn='h_expr', params=dict(expr=e, names=names, size=size, opts=opts)))
     for e, names, size in [('a**2 + 3.0*a*b', ['a', 'b'], 3), ('a*a*b', ['a', 'b'], 2), ('a**3 - b**2', ['a', 'b'], 2)]:
         jobs.append(dict(fn='h_expr', params=dict(expr=e, names=names, size=size, opts='plain', detect='zeros')))
+    for e, names, size in [('a*b + a**2', ['a', 'b'], 3), ('a*a*b', ['a', 'b'], 2)]:
+        jobs.append(dict(fn='h_expr', params=dict(expr=e, names=names, size=size, opts='plain', detect='some_zeros')))
+    # the public complex_stepsize attribute changed after construction
+    jobs.append(dict(fn='h_expr', params=dict(expr='a**2 + 3.0*a*b', names=['a', 'b'], size=2, opts='plain', cstep=1e-30)))
+    jobs.append(dict(fn='h_expr', params=dict(expr='a**3 - b', names=['a', 'b'], size=1, opts='plain', cstep=1e-30)))
     jobs.append(dict(fn='h_multi', params={}))
     return jobs
 
@@ -97,7 +102,7 @@ def _outshape(expr, names, size):
     return np.shape(eval(expr, {'__builtins__': {}}, dict(probe, sum=np.sum, dot=np.dot)))
 
 
-def h_expr(ctx, expr, names, size, opts, detect='generic'):
+def h_expr(ctx, expr, names, size, opts, detect='generic', cstep=None):
     _install(ctx)
     oshape = _outshape(expr, names, size)
     kw = {n: dict(val=np.ones(size)) for n in names}
@@ -117,6 +122,8 @@ def h_expr(ctx, expr, names, size, opts, detect='generic'):
             ivc.add_output(n, val=ctx.np.ones(size))
     comp = om.ExecComp('y = ' + expr, **ckw, **kw)
     p.model.add_subsystem('c', comp)
+    if cstep is not None:
+        comp.complex_stepsize = cstep
     if opts == 'shape_by_conn':
         for n in names:
             p.model.connect('ivc.' + n, 'c.' + n)
@@ -130,6 +137,8 @@ def h_expr(ctx, expr, names, size, opts, detect='generic'):
     for k, n in enumerate(names):
         if detect == 'zeros':       # a first linearization at the origin (where many partials vanish) must not lose entries
             p.set_val(src(n), ctx.consts([0.0] * size))
+        elif detect == 'some_zeros':    # ... nor at a point where only some entries are exactly zero
+            p.set_val(src(n), ctx.consts([0.0 if (j + k) % 2 == 0 else 0.37 + 0.61 * j - 0.9 * k for j in range(size)]))
         else:
             p.set_val(src(n), ctx.consts([0.37 + 0.61 * j - 0.9 * k for j in range(size)]))
     p.run_model()
